@@ -17,6 +17,7 @@ from sim import gen as G
 from sim.core import World, raw_dump, logical
 from sim.node import NodeDied, HarnessError
 from sim.runner import viol
+from sim.sched import lockstep, sched_str as _s
 
 ID = "C20"
 LEVEL = "exploration"
@@ -35,7 +36,7 @@ PARK = ("fs.tmpname", "fs.open", "fs.close", "fs.unlink")
 
 def budget(tier):
     if tier == "quick":
-        return {"runs": 1200, "wall": 50, "chunk": 8}
+        return {"runs": 1000, "wall": 75, "chunk": 8}
     return {"runs": 60000, "wall": 1500, "chunk": 8}
 
 
@@ -65,7 +66,27 @@ def gen(rng, tier):
     elif r < 0.4:
         fault = {"node": rng.randrange(k), "mode": "error", "kind": rng.choice(["fs.tmpname", "fs.write", "fs.unlink", "fs.open"]),
                  "nth": rng.choice([0, 0, 1])}
-    return {"inputs": inputs, "nodes": nodes, "policy": rng.choice(["uniform", "bursty", "rr", "pileup", "uniform"]),
+    # second phase: some of the finished importers go on to update() their own database, again concurrently
+    updates = []
+    for i in range(k):
+        if rng.random() < 0.45:
+            fmt = inputs[nodes[i]["input"]]["fmt"]
+            if fmt == "gff3":
+                cfg = {"p_id": 1.0, "p_parent": 0.7, "types": ["mRNA", "exon"], "seqids": ["chr1"], "pool": [1, 5, 10, 20, 30],
+                       "ids": ["u1", "u2", "u3", "u4"], "parents": G.IDS[:4] + ["u1"]}
+                uf = G.gff3_batch(rng, rng.randint(1, 4), cfg, unique_ids=True)
+            else:
+                uf = []
+                while not uf:
+                    uf = G.gtf_annotation(rng, {"max_genes": 2})
+                for f in uf:
+                    for kv in f["attrs"]:
+                        if kv[0] in ("gene_id", "transcript_id"):
+                            kv[1] = ["U" + kv[1][0]]
+            updates.append({"feats": uf, "form": rng.choice(["path", "list", "string"])})
+        else:
+            updates.append(None)
+    return {"inputs": inputs, "nodes": nodes, "updates": updates, "policy": rng.choice(["uniform", "bursty", "rr", "pileup", "uniform"]),
             "names": rng.choice(["identical", "identical", "repeat", "distinct"]),
             "sched_seed": rng.getrandbits(32), "fault": fault, "readers": rng.choice([0, 2, 3, 6]),
             "reader_seed": rng.getrandbits(32)}
@@ -75,10 +96,25 @@ def _text(inp):
     return G.render_text(inp["feats"], G.DEFAULT_GFF3 if inp["fmt"] == "gff3" else G.DEFAULT_GTF)
 
 
+def _db(i):
+    # every importer writes <its own directory>/annotation.db: separate output files that share a basename
+    return "d%d/annotation.db" % i
+
+
 def _req(case, i, nd):
     inp = case["inputs"][nd["input"]]
     data = {"form": nd["form"], "text": _text(inp), "name": "in%d_%d.%s" % (nd["input"], i, inp["fmt"])}
-    return {"op": "create", "h": "h", "db": "out%d.db" % i, "data": data, "kw": {"merge_strategy": "create_unique"}, "want_log": True}
+    return {"op": "create", "h": "h", "db": _db(i), "data": data, "kw": {"merge_strategy": "create_unique"}, "want_log": True}
+
+
+def _upd_req(case, i):
+    u = (case.get("updates") or [None] * len(case["nodes"]))[i]
+    if u is None:
+        return None
+    fmt = case["inputs"][case["nodes"][i]["input"]]["fmt"]
+    d = G.DEFAULT_GFF3 if fmt == "gff3" else G.DEFAULT_GTF
+    spec = G.source_spec(None, u["feats"], form=u["form"], d=d, name="upd%d.%s" % (i, fmt))
+    return {"op": "update", "h": "h", "data": spec, "kw": {"merge_strategy": "create_unique", "make_backup": False}, "want_log": True}
 
 
 def _names(case, i):
@@ -90,32 +126,34 @@ def _names(case, i):
 
 
 def solitary(case, i, nd, cache):
-    inp = case["inputs"][nd["input"]]
-    key = (nd["input"], nd["form"])
+    import os
+
+    u = (case.get("updates") or [None] * len(case["nodes"]))[i]
+    key = (nd["input"], nd["form"], core.digest(u) if u else None)
     if key in cache:
         return cache[key]
     with World("c20s_") as w:
+        os.makedirs(w.p("d%d" % i))
         n = w.node(tmp_names=_names(case, i))
         r = w.call(n, _req(case, i, nd))
+        res = {"ok": r["ok"], "exc": r.get("exc"), "msg": r.get("msg"), "points": r["points"], "upd_points": 0,
+               "dump": logical(raw_dump(w.p(_db(i)))) if r["ok"] else None, "dump2": None}
+        if r["ok"] and u is not None:
+            r2 = w.call(n, _upd_req(case, i))
+            res["upd_ok"] = r2["ok"]
+            res["upd_points"] = r2["points"]
+            res["upd_err"] = "%s %s" % (r2.get("exc"), r2.get("msg"))
+            if r2["ok"]:
+                res["dump2"] = logical(raw_dump(w.p(_db(i))))
         n.close()
-        left = w.tmp_files()
-        res = {"ok": r["ok"], "exc": r.get("exc"), "msg": r.get("msg"), "points": r["points"],
-               "dump": logical(raw_dump(w.p("out%d.db" % i))) if r["ok"] else None, "left": left,
-               "stats": w.stats}
+        res["left"] = w.tmp_files()
+        res["stats"] = w.stats
     cache[key] = res
     return res
 
 
-def pick(rng, policy, eligible, last, step):
-    if policy == "rr":
-        later = [x for x in eligible if x > last]
-        return later[0] if later else eligible[0]
-    if policy == "bursty" and last in eligible and rng.random() < 0.8:
-        return last
-    return rng.choice(eligible)
-
-
 def run(case):
+    import os
     import random
 
     out = {"violations": [], "probes": {}, "stats": {}, "schedules": set()}
@@ -124,116 +162,92 @@ def run(case):
     nodes = case["nodes"]
     if len(nodes) < 1:
         return out
+    updates = case.get("updates") or [None] * len(nodes)
     cache = {}
     sol = []
     stats = {"nodes": 0, "crashes": 0, "points": 0, "ops": 0, "kinds": {}, "fired": {}}
     for i, nd in enumerate(nodes):
-        s = solitary(case, i, nd, cache)
-        sol.append(s)
+        sol.append(solitary(case, i, nd, cache))
     for s in cache.values():
         _merge(stats, s["stats"])
-        if not s["ok"]:
-            V.append(viol("C20.solitary", "a solitary import fails: %s %s" % (s["exc"], s["msg"]), kind="solitary_failed"))
+        if not s["ok"] or s.get("upd_ok") is False:
+            V.append(viol("C20.solitary", "a solitary import/update fails: %s %s %s" % (s["exc"], s["msg"], s.get("upd_err")),
+                          kind="solitary_failed"))
             out["stats"] = stats
             return out
         if s["left"]:
             V.append(viol("C20.tempfiles", "a solitary import leaves temp files behind: %r" % s["left"], kind="leftover_solitary"))
     fault = case.get("fault")
     rng = random.Random(case["sched_seed"])
-    sched = []
     journal = []
     with World("c20_") as w:
         ns = []
         for i, nd in enumerate(nodes):
+            os.makedirs(w.p("d%d" % i))
             ns.append(w.node(lockstep_kinds=PARK, tmp_names=_names(case, i)))
-        state = ["unstarted"] * len(nodes)
-        delay = [nd.get("delay", 0) for nd in nodes]
-        result = [None] * len(nodes)
-        created = [set() for _ in nodes]  # temp candidate names each node actually got
-        pending_name = [None] * len(nodes)
-        open_tmp = [0] * len(nodes)  # temp files currently alive per node (schedule overlap probe)
-        overlap = False
-        last = -1
-        step = 0
-        pile = case["policy"] == "pileup"
-        while True:
-            eligible = [i for i, s in enumerate(state) if s == "parked" or (s == "unstarted" and delay[i] <= step)]
-            if not eligible:
-                waiting = [i for i, s in enumerate(state) if s == "unstarted"]
-                if not waiting:
-                    break
-                step = min(delay[i] for i in waiting)
-                continue
-            if pile:
-                # hold every node at its temp-name point until all live nodes are there (or nothing else can move)
-                not_at = [i for i in eligible if not (state[i] == "parked" and pending_name[i] is not None)]
-                cand = not_at if not_at else eligible
-            else:
-                cand = eligible
-            i = pick(rng, case["policy"], cand, last, step)
-            last = i
-            sched.append(i)
-            step += 1
-            n = ns[i]
-            try:
-                if state[i] == "unstarted":
-                    req = _req(case, i, nodes[i])
-                    if fault and fault["node"] == i:
-                        if "frac" in fault:
-                            req["faults"] = [{"at": int(fault["frac"] * sol[i]["points"]), "mode": fault["mode"]}]
-                        else:
-                            req["faults"] = [{"kind": fault["kind"], "nth": fault.get("nth", 0), "mode": fault["mode"]}]
-                    n.send(req)
+
+        def req1(i):
+            req = _req(case, i, nodes[i])
+            if fault and fault["node"] == i and fault.get("phase", 1) == 1:
+                if "frac" in fault:
+                    req["faults"] = [{"at": int(fault["frac"] * sol[i]["points"]), "mode": fault["mode"]}]
                 else:
-                    n.send(("go",))
-                while True:
-                    m = n.recv()
-                    if m[0] == "crashing":
-                        n.crash_note = m[1]
+                    req["faults"] = [{"kind": fault["kind"], "nth": fault.get("nth", 0), "mode": fault["mode"]}]
+            return req
+
+        planned = (fault["node"],) if fault and fault["mode"] == "crash" else ()
+        ph1 = lockstep(w, ns, req1, rng, case["policy"], [nd.get("delay", 0) for nd in nodes], journal, planned)
+        for i, st in ph1["unexpected_deaths"]:
+            V.append(viol("C20.independent", "importer %d died unexpectedly (status %r)" % (i, st), kind="node_died"))
+        state, result, created, pending = ph1["state"], ph1["result"], ph1["created"], ph1["pending"]
+        sched = list(ph1["sched"])
+        overlap = ph1["overlap"]
+        faulty = fault["node"] if fault else None
+
+        def check_outputs(results, which, dump_key, phase):
+            for i in which:
+                r = results[i]
+                if r is None:
+                    continue
+                if not r["ok"]:
+                    if i == faulty and (r.get("injected") or phase == 2):
+                        probes["faulted_node_failed"] = probes.get("faulted_node_failed", 0) + 1
                         continue
-                    break
-            except NodeDied as e:
-                state[i] = "dead"
-                w.stats["crashes"] += 1
-                w.stats["fired"]["crash"] = w.stats["fired"].get("crash", 0) + 1
-                journal.append((i, "died", e.status))
-                if not (fault and fault["node"] == i and fault["mode"] == "crash"):
-                    V.append(viol("C20.independent", "importer %d died unexpectedly (status %r)" % (i, e.status), kind="node_died"))
-                continue
-            if m[0] == "park":
-                state[i] = "parked"
-                kind, detail = m[1], m[2]
-                journal.append((i, kind, detail))
-                if kind == "fs.tmpname":
-                    pending_name[i] = detail
-                else:
-                    if pending_name[i] is not None:
-                        created[i].add(pending_name[i])
-                        pending_name[i] = None
-                        open_tmp[i] += 1
-                        if sum(1 for x in open_tmp if x > 0) >= 2:
-                            overlap = True
-                    if kind == "fs.unlink":
-                        open_tmp[i] = max(0, open_tmp[i] - 1)
-            elif m[0] == "done":
-                state[i] = "done"
-                result[i] = m[1]
-                if pending_name[i] is not None:
-                    created[i].add(pending_name[i])
-                    pending_name[i] = None
-                open_tmp[i] = 0
-                r = m[1]
-                w.stats["ops"] += 1
-                w.stats["points"] += r.get("points", 0)
-                for k, v in (r.get("kinds") or {}).items():
-                    w.stats["kinds"][k] = w.stats["kinds"].get(k, 0) + v
-                for f in r.get("fired") or []:
-                    kk = f["mode"] + "@" + f["kind"]
-                    w.stats["fired"][kk] = w.stats["fired"].get(kk, 0) + 1
-                journal.append((i, "done", r["ok"], r.get("exc"), core.digest(r.get("log"))))
-            else:
-                raise HarnessError("unexpected frame %r" % (m[0],))
-        # orderly exit of finished importers (normal interpreter exit)
+                    V.append(viol("C20.independent", "%s %d of %d failed although it was not faulted: %s %s (schedule %s)" % (
+                        "importer" if phase == 1 else "updater", i, len(nodes), r.get("exc"), r.get("msg"), _s(sched)),
+                        kind="import_failed" if phase == 1 else "update_failed", exc=r.get("exc")))
+                    continue
+                try:
+                    got = logical(raw_dump(w.p(_db(i))))
+                except Exception as e:
+                    V.append(viol("C20.independent", "output %d unreadable: %r" % (i, e), kind="output_unreadable"))
+                    continue
+                want = sol[i][dump_key]
+                if got != want:
+                    what = [t for t in got if got[t] != want.get(t)]
+                    V.append(viol("C20.independent", "output %d differs from the solitary run in tables %s after the %s phase (schedule %s)" % (
+                        i, what, "import" if phase == 1 else "update", _s(sched)), kind="output_differs" if phase == 1 else "update_output_differs",
+                        tables=",".join(what)))
+
+        check_outputs(result, range(len(nodes)), "dump", 1)
+        # ---- phase 2: finished importers update their own databases, concurrently again
+        ok1 = [i for i in range(len(nodes)) if result[i] is not None and result[i]["ok"] and not result[i].get("fired")]
+        upd_nodes = [i for i in ok1 if updates[i] is not None]
+        result2 = [None] * len(nodes)
+        if upd_nodes and not V:
+            ph2 = lockstep(w, ns, lambda i: _upd_req(case, i) if i in upd_nodes else None, rng, case["policy"], None, journal, ())
+            for i, st in ph2["unexpected_deaths"]:
+                V.append(viol("C20.independent", "updater %d died unexpectedly (status %r)" % (i, st), kind="node_died"))
+            result2 = ph2["result"]
+            sched += [9] + list(ph2["sched"]) if False else list(ph2["sched"])
+            overlap = overlap or ph2["overlap"]
+            for i in range(len(nodes)):
+                created[i] |= ph2["created"][i]
+                state[i] = "dead" if ph2["state"][i] == "dead" else state[i]
+            if ph2["overlap"]:
+                probes["update_temp_lifetimes_overlapped"] = 1
+            check_outputs(result2, upd_nodes, "dump2", 2)
+        # orderly exit of finished nodes (normal interpreter exit)
         for i, n in enumerate(ns):
             if state[i] == "done":
                 n.close()
@@ -241,36 +255,15 @@ def run(case):
             probes["temp_lifetimes_overlapped"] = 1
         if any(r and r["kinds"].get("fs.tmpname", 0) > (2 if nodes[i]["form"] == "string" else 1) for i, r in enumerate(result)):
             probes["temp_name_retry"] = 1
-        # ---- oracle 1: every finished importer produced exactly the solitary database
-        faulty = fault["node"] if fault else None
-        for i, nd in enumerate(nodes):
-            r = result[i]
-            if r is None:
-                continue
-            if not r["ok"]:
-                if i == faulty and r.get("injected"):
-                    probes["faulted_node_failed"] = probes.get("faulted_node_failed", 0) + 1
-                    continue
-                V.append(viol("C20.independent", "importer %d of %d failed although it was not faulted: %s %s (schedule %s)" % (
-                    i, len(nodes), r.get("exc"), r.get("msg"), _s(sched)), kind="import_failed", exc=r.get("exc")))
-                continue
-            try:
-                got = logical(raw_dump(w.p("out%d.db" % i)))
-            except Exception as e:
-                V.append(viol("C20.independent", "output %d unreadable: %r" % (i, e), kind="output_unreadable"))
-                continue
-            if got != sol[i]["dump"]:
-                what = [t for t in got if got[t] != sol[i]["dump"].get(t)]
-                V.append(viol("C20.independent", "output %d differs from the solitary run in tables %s (schedule %s)" % (
-                    i, what, _s(sched)), kind="output_differs", tables=",".join(what)))
         # ---- oracle 2: no temp file of a finished importer remains
         left = w.tmp_files()
         excused = set()
         for i in range(len(nodes)):
-            if state[i] == "dead" or (result[i] is not None and (not result[i]["ok"] or result[i].get("fired"))):
+            bad_run = any(r is not None and (not r["ok"] or r.get("fired")) for r in (result[i], result2[i]))
+            if state[i] == "dead" or bad_run:
                 excused |= created[i]
-                if pending_name[i]:
-                    excused.add(pending_name[i])
+                if pending[i]:
+                    excused.add(pending[i])
         bad = [f for f in left if not any(x in f for x in excused)]
         if bad:
             V.append(viol("C20.tempfiles", "temp dir holds files of finished importers: %r (schedule %s)" % (bad, _s(sched)),
@@ -287,14 +280,15 @@ def run(case):
     out["trace_hash"] = core.digest([sched, journal])
     out["nontrivial"] = (len(nodes) >= 2 and overlap) or bool(probes.get("readers_interleaved"))
     out["sample"] = {"nodes": [dict(nd, fmt=case["inputs"][nd["input"]]["fmt"]) for nd in nodes], "policy": case["policy"],
-                     "names": case["names"], "schedule": _s(sched), "fault": fault, "readers": case.get("readers")}
+                     "names": case["names"], "schedule": _s(sched), "fault": fault, "readers": case.get("readers"),
+                     "updating_nodes": [i for i, u in enumerate(updates) if u is not None]}
     return out
 
 
 def _readers(case, w, which, V, probes, journal, stats):
     import random
 
-    db = "out%d.db" % which
+    db = _db(which)
     # solitary reader
     n0 = w.node()
     r = w.call(n0, {"op": "open", "h": "h", "db": db})
@@ -352,8 +346,6 @@ def _readers(case, w, which, V, probes, journal, stats):
     stats["nodes"] += R + 1
 
 
-def _s(sched):
-    return "".join(str(x) if x < 10 else "(%d)" % x for x in sched)
 
 
 def _merge(a, b):
